@@ -29,6 +29,7 @@ func RunC12(c *Ctx, r *Report) {
 	r.Rule(prefix+"canonical-identity", "W ⊆ R: what the encoder writes is what the decoder reads back, so that re-encoding a canonical datagram is byte-identical (together with R ⊆ W and the regenerated constants/lengths)", 60)
 	w.inclusion(r, prefix+"canonical-identity", w.enc, w.dec, "the encoder", "the decoder", "re-encoding a canonical datagram would not be byte-identical")
 	w.lengthSlotRule(r, prefix+"length-slots")
+	w.nestedDispatchRule(r, prefix+"nested-dispatch")
 	c.akaRules(r, prefix, "stability")
 	c.akaOrderRule(r, prefix+"aka.order")
 }
@@ -66,6 +67,7 @@ func RunC14(c *Ctx, r *Report) {
 	we.specCompare(r, prefix+"eap.w-equals-spec", "encode", we.enc)
 	r.Rule(prefix+"eap.r-equals-spec", "EAP records: decoder layout = RFC 3748 layout", 5)
 	we.specCompare(r, prefix+"eap.r-equals-spec", "decode", we.dec)
+	we.nestedDispatchRule(r, prefix+"eap.nested-dispatch")
 	// length slot and constants
 	ruleL := prefix + "eap.length-and-type"
 	r.Rule(ruleL, "the EAP length field carries the final packet length; each method body starts with its type octet constant (1, 2, 3, 254)", 5)
